@@ -78,6 +78,21 @@ Theorem C17_argmax_first_true : forall m, existsb (fun b => b) m = true ->
 Proof. exact argmax_mask_spec. Qed.
 Print Assumptions C17_argmax_first_true.
 
+(* a cut above every sample: numpy's argmax of an all-False mask is 0, so add_new_proposal then trains on
+   every sample rather than on none *)
+Theorem C17_argmax_none : forall m, existsb (fun b => b) m = false -> argmax_mask m = 0%nat.
+Proof. exact argmax_mask_none. Qed.
+Print Assumptions C17_argmax_none.
+
+(* on ascending log-likelihoods the cut is a clean split of the samples *)
+Theorem C17_argmax_sorted_split : forall keys cut,
+  (forall i j, (i <= j < length keys)%nat -> nth i keys 0 <= nth j keys 0) ->
+  existsb (fun k => cut <=? k) keys = true ->
+  (forall j, (argmax_ge_key keys cut <= j < length keys)%nat -> cut <= nth j keys 0)
+  /\ (forall j, (j < argmax_ge_key keys cut)%nat -> nth j keys 0 < cut).
+Proof. exact argmax_ge_key_sorted. Qed.
+Print Assumptions C17_argmax_sorted_split.
+
 (* every proposal is trained on at least min_samples samples *)
 Theorem C17_n_train : forall keys thr min_s,
   0 <= min_s <= Z.of_nat (length keys) ->
